@@ -176,6 +176,11 @@ theorem C03_absolute_authority (raw sch rest a : Bytes) (hctl : containsCTL raw 
       some (if authorityOk (a.takeWhile (· != 47)) then setPath (a.dropWhile (· != 47)) else none) :=
   parseRequestURI_abs hctl hsch hr
 
+/-- The plain `host[:port]` authorities (`[A-Za-z0-9.-]*`, optional `:digits`) — all the earlier model covered — are
+    accepted by the full model of `parseAuthority`: the extension is conservative. -/
+theorem C03_simple_authority_ok (a : Bytes) (h : simpleAuth a = true) : authorityOk a = true :=
+  simpleAuth_authorityOk a h
+
 /-- An absolute-form target without a path (`GET http://host HTTP/1.1`) has `Path = ""`: no leading slash, so
     `RouteHTTP` answers InvalidArgument whatever the table holds. -/
 theorem C03_absolute_no_path {ι : Type} (tbl : List (Route ι)) (m raw sch rest a : Bytes) (u : Url)
